@@ -1,5 +1,6 @@
 """C07: run always terminates and leaves nothing running; cycles are rejected up front."""
 import threading
+import time
 
 import core
 import engine_corr
@@ -405,6 +406,9 @@ def no_thread_available(ctx):
 
 def run(ctx):
     no_thread_available(ctx)
+    cyclic_exception_chains(ctx)
+    import c06
+    c06.retry_across_calls(ctx)        # several calls through one retry: no call is retried for ever, run returns
     transform_cycles(ctx)
     slow_progress_sink(ctx)
     nested_and_scoped(ctx)
@@ -514,3 +518,73 @@ def cycles(ctx):
                 ctx.fail("cycle:plan-wrong-error", "plan with a cycle raised %r" % (e,), {"where": where, "registry": with_registry})
             if [t for t in threading.enumerate() if t not in before]:
                 ctx.fail("cycle:plan-leak", "threads left after cycle error", {"where": where})
+
+
+def cyclic_exception_chains(ctx):
+    """A failing call may raise an exception whose __cause__ / __context__ chain is cyclic (`raise errors[-1] from errors[0]` in a retry
+    helper that saw a single error; two exceptions naming each other): run still returns - it raises CallError - under every bundled
+    progress display, and no thread is left behind."""
+    import contextlib
+    import io
+    uberjob = core.use_repo()
+    from uberjob.progress import console_progress, html_progress, null_progress
+
+    def self_cause():
+        e = ValueError("self-caused")
+        e.__cause__ = e
+        return e
+
+    def self_context():
+        e = ValueError("self-context")
+        e.__context__ = e
+        return e
+
+    def pair():
+        a, b = ValueError("a"), KeyError("b")
+        a.__cause__, b.__cause__ = b, a
+        return a
+
+    def via_retry_decorator():
+        return None       # the decorator below builds the cycle
+    makers = {"__cause__ is itself": self_cause, "__context__ is itself": self_context, "two exceptions naming each other": pair, "retry decorator chaining first and last error": via_retry_decorator}
+
+    def chaining_retry(fn):
+        def wrapper(*a, **k):
+            errors = []
+            try:
+                return fn(*a, **k)
+            except Exception as e:      # noqa
+                errors.append(e)
+            raise errors[-1] from errors[0]
+        return wrapper
+    for name, mk in makers.items():
+        for pname, prog in (("None", None), ("console", console_progress), ("html(callable)", html_progress(lambda b: None)), ("null", null_progress)):
+            for workers in (1, 3):
+                def bad():
+                    e = mk()
+                    if e is None:
+                        raise ValueError("only error")
+                    raise e
+                plan = uberjob.Plan()
+                x = plan.call(bad)
+                y = plan.call(lambda: 1)
+                before = set(threading.enumerate())
+                ctx.case(("c07-cyclic-exception-chain", name, pname, workers))
+                kw = {"retry": chaining_retry} if mk is via_retry_decorator else {}
+                try:
+                    with contextlib.redirect_stdout(io.StringIO()), contextlib.redirect_stderr(io.StringIO()):
+                        core.call_watched(lambda: uberjob.run(plan, output=[x, y], progress=prog, max_workers=workers, **kw), timeout=25)
+                    oc = "returned"
+                except uberjob.CallError:
+                    oc = "callerror"
+                except core.Hang:
+                    oc = "hang"
+                except BaseException as e:      # noqa
+                    oc = "raised %s" % type(e).__name__
+                time.sleep(0.05)
+                left = [t.name for t in threading.enumerate() if t not in before and t.name != "watched-call"] if oc != "hang" else []
+                if oc != "callerror" or left:
+                    ctx.fail("cyclic-exception-chain", "a call fails with an exception whose chain is cyclic (%s), progress=%s, max_workers=%d: run %s; threads left: %r"
+                             % (name, pname, workers, "did not return within 25 s" if oc == "hang" else oc, left), {"chain": name, "progress": pname, "max_workers": workers})
+                    if oc == "hang":
+                        return
